@@ -64,7 +64,7 @@ fuzz_target!(|data: &[u8]| {
     if expected.len() < 3 {
         return;
     }
-    let path = format!("/dev/shm/fz-dt-{}.log", std::process::id());
+    let path = format!("{}/fz-dt-{}.log", std::env::var("VP_FZ_DIR").unwrap_or_else(|_| "/dev/shm".to_string()), std::process::id());
     std::fs::write(&path, &content).unwrap();
     let ft = FileType::Text { archival_type: FileTypeArchive::Normal, encoding_type: FileTypeTextEncoding::Utf8Ascii };
     let tz = chrono::FixedOffset::east_opt(case.cli_off15 as i32 * 900).unwrap();
